@@ -126,6 +126,20 @@ CLAIMED.update({
   ref="DESIGN.md 4/C15, 9"),
 })
 
+CLAIMED.update({
+ "C18": dict(
+  text="Deductive proof, field by field, for the hand-written encoders of consensus objects: the protobuf message handed to proto.Marshal by "
+       "ToSignatureBytes/ToBytes/ToProto carries EVERY field of the Go object under its own name (votes, transactions, proposed and empty block "
+       "headers, block proposals incl. header and ordered transaction list, proof proposals, public flip keys, private key packages, block "
+       "certificates with their ordered signature lists), and FromBytes/FromProto copy every field back (hashes as 32-byte contents, optional big "
+       "integers as their magnitude, nil staying nil): decode(encode(x)) is field-wise x and every signed field is in the signed message. Loops over "
+       "lists are proved with inductive invariants (order and length preserved).",
+  note="Trusted: the protobuf runtime (Marshal/Unmarshal are inverse on messages), hash collision freedom, Hash/Address byte helpers for inputs of "
+       "exactly 32/20 bytes. Not decided yet: state objects (Account, Identity, Global incl. the canonical order of map entries), receipts, "
+       "indexes, 'every behaviour-relevant field is encoded' (the field lists are written by hand), negative amounts (the sign is not encoded).",
+  ref="DESIGN.md 4/C18, 9"),
+})
+
 PENDING = {
 }
 
